@@ -78,8 +78,10 @@ fn check(ctx: &mut Ctx, ms: bool, x: u64) {
 
 impl Monitor for M {
     fn case(&mut self, ctx: &mut Ctx) {
-        let i = ctx.index;
         let light = ctx.light();
+        // the interpreter and valgrind skip the exhaustive sweep of 0..2*10^6 (plain arithmetic, no memory
+        // in play) and start at the boundary families
+        let i = if light { ctx.index + EXH } else { ctx.index };
         let chunk = if light { 20 } else { CHUNK };
         if i < EXH {
             ctx.obs("chunks.exhaustive");
